@@ -4,7 +4,8 @@ import os
 from pathlib import Path
 import re
 from typing import (
-        Any, AnyStr, Callable, cast, Dict, IO, List, overload, TypeVar, Union
+        Any, AnyStr, Callable, cast, Dict, IO, List, Optional, overload, Set,
+        TypeVar, Union
         )  # noqa
 from typing_extensions import ClassVar, Type    # noqa
 
@@ -146,22 +147,32 @@ class Loader(yaml.SafeLoader):
             'Unknown type {} in type_to_tag,'  # pragma: no cover
             ' please report a YAtiML bug.').format(type_))
 
-    def __savorize(self, node: yaml.Node, expected_type: Type) -> yaml.Node:
+    def __savorize(self, node: yaml.Node, expected_type: Type,
+                   done: Optional[Set[Type]] = None) -> yaml.Node:
         """Removes syntactic sugar from the node.
 
         This calls _yatiml_savorize(), first on the class's base
-        classes, then on the class itself.
+        classes, then on the class itself. A base class that is
+        reached via more than one path (diamond inheritance) is
+        savorized only once.
 
         Args:
             node: The node to modify.
             expected_type: The type to assume this type is.
+            done: Classes that were savorized already.
         """
         logger.debug('Savorizing node assuming type {}'.format(
             expected_type.__name__))
 
+        if done is None:
+            done = set()
+        done.add(expected_type)
+
         for base_class in expected_type.__bases__:
-            if base_class in self._registered_classes.values():
-                node = self.__savorize(node, base_class)
+            if (
+                    base_class in self._registered_classes.values() and
+                    base_class not in done):
+                node = self.__savorize(node, base_class, done)
 
         if '_yatiml_savorize' in expected_type.__dict__:
             logger.debug('Calling {}._yatiml_savorize()'.format(
